@@ -333,7 +333,7 @@ Lemma auto_reply_unmatched (t : table) (pend : list str) (p : pkt) :
   pending_hit pend p = false -> none_accepts t p ->
   replies (fst (do_route t pend p)) =
     match p with
-    | PIQ a ns any => if is_request (a_type a) then [err_reply a ns any] else []
+    | PIQ a ns any => if is_request (a_type a) then [err_reply a] else []
     | _ => []
     end.
 Proof.
@@ -346,7 +346,7 @@ Qed.
 Lemma auto_reply (t : table) (pend : list str) (p : pkt) :
   pending_hit pend p = false -> none_accepts t p ->
   (forall a ns any, p = PIQ a ns any -> a_type a = s_get \/ a_type a = s_set ->
-     replies (fst (do_route t pend p)) = [err_reply a ns any]) /\
+     replies (fst (do_route t pend p)) = [err_reply a]) /\
   ((forall a ns any, p = PIQ a ns any -> a_type a <> s_get /\ a_type a <> s_set) ->
      replies (fst (do_route t pend p)) = []).
 Proof.
@@ -367,15 +367,12 @@ Proof.
     rewrite Hi. reflexivity.
 Qed.
 
-Lemma err_reply_fields (a : attrs) (ns : option str) (any : bool) :
-  a_id (rp_attrs (err_reply a ns any)) = a_id a /\
-  a_from (rp_attrs (err_reply a ns any)) = a_to a /\
-  a_to (rp_attrs (err_reply a ns any)) = a_from a /\
-  a_type (rp_attrs (err_reply a ns any)) = s_error /\
-  rp_err (err_reply a ns any) =
-    Some {| e_code := 501%Z; e_type := s_cancel;
-            e_reason := s_feature_not_implemented; e_text := [] |} /\
-  rp_ns (err_reply a ns any) = ns /\ rp_any (err_reply a ns any) = any.
+Lemma err_reply_fields (a : attrs) :
+  a_id (rp_attrs (err_reply a)) = a_id a /\
+  a_from (rp_attrs (err_reply a)) = a_to a /\
+  a_to (rp_attrs (err_reply a)) = a_from a /\
+  a_type (rp_attrs (err_reply a)) = s_error /\
+  rp_condition (err_reply a) = Some s_feature_not_implemented.
 Proof. repeat split. Qed.
 
 (* route_pkt's reply component is the replies of the trace *)
